@@ -829,6 +829,7 @@ def run_large_make_phantoms(ctx, res):
 
 def run(ctx, res):
     from . import genarith
+    genarith.regenerate(ctx.pid, "status_skeletons", res)   # whole-function skeletons: CVR.make_phantoms (and the C09 functions); its reading proved equal to Phantoms.v
     genarith.regenerate(ctx.pid, "audit_skeletons", res)   # regenerated tie: every statement of Assorter.overstatement / overstatement_assorter; scoring conventions proved on the regenerated text
     kept = []
     run_make_phantoms(ctx, res, kept)
